@@ -2,8 +2,9 @@
 Concrete instances of the set-related parameters of `Convert.Env`, for the
 correspondence driver: `setRules.Hash` (cty/set_internals.go `appendSetHashBytes`
 + hash/crc32), `setRules.Equivalent` (`Value.Equals == True`, from Ops.lean) and
-`setRules.Less` (incl. its `RawEquals` pre-check).  No theorem depends on this
-file; the C08 theorems quantify over every `Env`.
+`setRules.Less` (incl. its `RawEquals` pre-check).  The C08 theorems quantify over
+every `Env` satisfying `SetLaws`; `Lemmas/ConvertD08SetEnv.lean` proves `SetLaws` of
+`Env.concrete U` (this file's `hashC` / `equivC`), so they apply to the driver's environment.
 
 `%q` quoting (strconv.Quote) is modelled for ASCII strings and a small printable
 non-ASCII range only; any other character makes the hash `.unmodelled`, and the
